@@ -508,7 +508,13 @@ def run_settings(rep, rng, sb: Path):
             s["upw"] = None
         elif s["upw"] is None:
             s["upw"] = None
-        out, auth, ua = asyncio.run(construct(s))
+        try:
+            out, auth, ua = asyncio.run(construct(s))
+        except Exception as e:  # every settings combination of the quantifier must yield a working client
+            found = True
+            rep.violation(f"no HTTP client can be built for the transport settings {s}: {type(e).__name__}: {e}",
+                          {"kind": "oracle", "tie": "client", "case": {"settings": s}}, tags={"oracle": "client_builds"})
+            continue
         rep.case(("client", s["up"], bool(s["hp"]), bool(s["sp"]), bool(s["pu"]), s["h2d"]), sample={"settings": s})
         rep.count("client")
         # statement-level: every transport of THIS downloader speaks HTTP/2 iff it is not disabled in ITS settings
